@@ -204,6 +204,8 @@ def unstable(nodes):
     for n in nodes:
         d = ops.seq(n['d'])
         ix = n['dt'] in ('f', 'c') and (not n['dy'] or n['bad'] or n['op'] in ops.INEXACT or any(inexact[j - 1] for j in d))
+        if n['op'] == 'inv' and (n['bad'] or any(inexact[j - 1] for j in d)):
+            return True                 # (nearly) singular matrices: the inverse amplifies rounding without bound
         sel = ops.DISCONT_OPERANDS.get(n['op'])
         if n['op'] in ops.DISCONT and any(inexact[j - 1] for i, j in enumerate(d) if sel is None or i in sel):
             return True
@@ -269,12 +271,13 @@ def key_for(nodes, k, what, ex=None):
         return 'take:point-dependent-index:eval-exception:AttributeError'
     if op == 'interp' and what == 'not-rejected':
         return 'interp:not-rejected'
-    if op == 'reshape' and what == 'build-exception:AssertionError' and (0 in ops.seq(n['sh']) or any(0 in sh for sh in opsh)):
-        return 'zero-size-array:reshape:build-exception:AssertionError'
     if op == 'getitem' and desc in ('multiple-index-arrays', 'index-array-with-int') and what in ('shape', 'value', 'not-rejected'):
         return 'getitem:combined-index-arrays:outer-product-instead-of-broadcast'
-    if op == 'getitem' and desc == 'bool-mask' and what.startswith('build-exception'):
-        return 'getitem:bool-mask:' + what
+    if (op == 'getitem' and desc == 'bool-mask' and what.startswith('build-exception')) or (op in ('take', 'getitem') and what == 'build-exception:UFuncTypeError'):
+        return 'getitem:bool-mask:' + what                                # boolean index (mask, or a bool used as the integer 0 / 1)
+    if what in ('build-exception:AssertionError', 'build-exception:ValueError') and 'need at least one array to stack' not in msg \
+            and (0 in ops.seq(n['sh']) or any(0 in sh for sh in opsh)) and op in ('reshape', 'ravel', 'take', 'getitem', 'compress'):
+        return 'zero-size-array:' + what                                  # reshape / ravel (and take, which ravels) of an array without elements
     if op == 'power' and what == 'eval-exception:AssertionError' and msg.startswith('power='):
         return 'power:unbounded-integer-exponent:eval-exception:AssertionError'
     if op == 'choose' and what == 'eval-exception:AssertionError' and opdt[:1] == ['b']:
@@ -376,6 +379,10 @@ def replay(item):
             what = 'dtype', '{} has dtype {} but numpy gives kind {}'.format(ops.pyexpr(nodes, k), obj.dtype.__name__, n['dt'])
         elif tuple(numpy.shape(obj)) != tuple(ops.seq(n['sh'])) or numpy.ndim(obj) != len(ops.seq(n['sh'])) or numpy.size(obj) != int(numpy.prod(ops.seq(n['sh']), dtype=int)):
             what = 'shape-ndim-size', 'numpy.shape / ndim / size of {} are {} {} {} but the shape is {}'.format(ops.pyexpr(nodes, k), numpy.shape(obj), numpy.ndim(obj), numpy.size(obj), n['sh'])
+        if what and ((n['op'] in ('floor_divide', 'mod', 'divmod') and {nodes[d - 1]['dt'] for d in ops.seq(n['d'])} == {'b'})
+                     or (n['op'] == 'reciprocal' and nodes[ops.seq(n['d'])[0] - 1]['dt'] in 'bi')):
+            out.update(status='skip', why='not implemented by nutils: {} [declared unsupported: boolean floor division / boolean or integer reciprocal]'.format(n['op']))
+            return out
         if what:
             # an operation that nutils refuses anyway when it is evaluated is unsupported, whatever its announced type
             try:
@@ -484,6 +491,8 @@ def replay(item):
                     if not numpy.isfinite(v).all():
                         finite[pt] = False
                     eps = max(eps, float(numpy.finfo(v.dtype).eps))     # numpy computes bool/int8 operands in half precision
+                if n['op'] == 'arctan2' and (numpy.asarray(vals[ops.seq(n['d'])[1] - 1]) == 0).any():
+                    finite[pt] = False      # on the branch cut the result depends on the SIGN of a zero
                 # NumPy does not check that the table of searchsorted / interp is sorted: the result is unspecified otherwise
                 if n['op'] in ('searchsorted', 'interp'):
                     tab = numpy.asarray(vals[ops.seq(n['d'])[0 if n['op'] == 'searchsorted' else 1] - 1])
@@ -499,10 +508,8 @@ def replay(item):
         out.update(status='ok', valued=False, why='model value undefined at every point: only shape and kind judged')
         return out
     if eps > 1e-12 and fb.any():
-        # half / single precision inside numpy's own evaluation of the reference: the entries taken from numpy are only that accurate
-        with numpy.errstate(all='ignore'):
-            close = numpy.isclose(got, want, rtol=8 * eps, atol=8 * eps) if got.shape == want.shape else False
-        judged = judged & ~(fb & close)
+        # numpy evaluates bool / int8 operands of float functions in HALF precision: its own result is no reference for these entries
+        judged = judged & ~fb
     if not same_values(want, ~judged, got, root['dt']):
         k, what, ex2 = first_deviation()
         pts = [i for i in range(len(want)) if not same_values(want[i], ~judged[i], got[i], root['dt'])]
